@@ -476,6 +476,8 @@ def plan(tier, seed):
     for i in range(nrand):
         tasks.append({'kind': 'random', 'i': i, 'seed': seed, 'tier': tier,
                       'cost': 15})
+    if tier == 'thorough':
+        tasks.append({'kind': 'contracts', 'cost': 400})
     tasks.append({'kind': 'conv', 'seed': seed, 'tier': tier, 'cost': 15})
     tasks.append({'kind': 'syn', 'seed': seed, 'tier': tier, 'cost': 15})
     return tasks
@@ -483,6 +485,10 @@ def plan(tier, seed):
 
 def run_task(task, out):
     k = task['kind']
+    if k == 'contracts':
+        from pv.pytest_contracts import run_contract_suite
+        run_contract_suite(out, 'bs_prod', 'bs_prod')
+        return
     if k == 'exh':
         exhaustive_block(out, task['n'], task['ka'], task['kb'],
                          task['singles'])
